@@ -22,7 +22,7 @@ def run(F, rep, tier):
     c05.run_inventory(F, rep, tier, PID, sorted(set(roots)), FLOORS[tier],
                       ("recognising decision tables drawn as text", "the public functions of dmntk_recognizer (build, recognize, ...)"))
     # side condition of the canvas audits: Canvas.content is never restructured outside scan()
-    rid = rep.rule("R19.2", "canvas invariant: the character grid is built once in scan() and never restructured afterwards")
+    rid = rep.rule("R19.3", "canvas invariant: the character grid is built once in scan() and never restructured afterwards")
 
     def restructures(b):
         B = mirutil.Body(F, b)
@@ -46,7 +46,7 @@ def run(F, rep, tier):
             rep.violation(rid, name, "%s restructures the canvas grid (%s): the bounds argument of every grid access relies on the grid being fixed after scan()" % (name, sorted(set(bad))), b["file"])
         else:
             rep.ok(rid, name, "no push/insert/remove on the grid")
-    rep.floor(rid, "Canvas methods", n, 20)
+    rep.floor(rid, "Canvas methods", n, 40)
     scan = F.bodies.get("dmntk_recognizer::canvas::scan")
     if scan is None or not restructures(scan):
         rep.missing_anchor(rid, "positive control: scan() must be recognised as building the grid with Vec::push")
